@@ -70,7 +70,11 @@ pub fn format_dividend(
 
 /// Format a comment line
 pub fn format_comment(text: &str) -> String {
-    format!("# {}", text)
+    // Broker-supplied text (descriptions, unknown actions, raw dates) may contain
+    // line breaks; a comment must stay on one line, otherwise the remainder of the
+    // text would become a line of the DSL body.
+    let single_line = text.replace(['\n', '\r'], " ");
+    format!("# {}", single_line)
 }
 
 /// Generate header comments for a converted file
